@@ -159,7 +159,25 @@ def sig_bondgo_goargs(job, name, a, b):
     return False
 
 
+def sig_bondgo_chanlinks(job, name, a, b):
+    """bondgo: the same machine, only the per-processor lists of shared-object links in another order"""
+    if job["tool"] != "bondgo" or not name.endswith(".json"):
+        return False
+    try:
+        da, db = json.loads(a), json.loads(b)
+        if da == db or "Shared_links" not in da:
+            return False
+        for d in (da, db):
+            d["Shared_links"] = [sorted(l) if isinstance(l, list) else l for l in (d.get("Shared_links") or [])]
+        return da == db
+    except Exception:
+        return False
+
+
 SIGNATURES = {
+    "C07-bondgo-channel-links-order": (sig_bondgo_chanlinks,
+                                       "bondgo Create_Bondmachine connects the processors to the channels by ranging over the channel "
+                                       "requirement map: Shared_links of the saved machine come out in map order"),
     "C07-bondgo-goargs-order": (sig_bondgo_goargs,
                                 "bondgo passes the arguments of `go f(a, b, …)` by ranging over maps: the channel writes of the caller "
                                 "and (independently) the channel reads of the new processor come out in map order"),
@@ -274,11 +292,12 @@ def make_jobs(thorough, stage_dir):
     # the race detector
     fan = _corp("net_fanin_640_2_1.json")
     if os.path.exists(fan):
-        jobs.append({"tool": "neuralbond", "kind": "neuralbond-fanin", "inputs": [fan], "gomaxprocs": "16", "min_runs": 10,
+        jobs.append({"tool": "neuralbond", "kind": "neuralbond-fanin", "inputs": [fan], "gomaxprocs": "16", "min_runs": 10, "timeout": 90,
                      "argv": [_bin("neuralbond"), "-net-file", fan, "-neuron-lib-path", lib, "-data-type", "float32",
                               "-save-basm", "{out}/net.basm"]})
         if os.path.exists(_bin("neuralbond-race")):
             jobs.append({"tool": "neuralbond", "kind": "neuralbond-race", "inputs": [fan], "gomaxprocs": "4", "max_runs": 1, "race": True,
+                         "timeout": 240, "may_hang": True,  # instrumented run is ~10x slower; a timeout under load is not a finding
                          "argv": [_bin("neuralbond-race"), "-net-file", fan, "-neuron-lib-path", lib, "-data-type", "float32",
                                   "-save-basm", "{out}/net.basm"]})
     # bondmachine -create-verilog on every machine assembled from the corpus (skipped when basm refused the input)
@@ -321,7 +340,7 @@ def run_once(job, rundir, gomaxprocs):
     env["GOMAXPROCS"] = gomaxprocs
     env.pop("GOTRACEBACK", None)
     try:
-        p = subprocess.run(argv, stdout=subprocess.PIPE, stderr=subprocess.PIPE, timeout=TIMEOUT, env=env,
+        p = subprocess.run(argv, stdout=subprocess.PIPE, stderr=subprocess.PIPE, timeout=job.get("timeout", TIMEOUT), env=env,
                            cwd=rundir, stdin=subprocess.DEVNULL)
         rc, so, se = p.returncode, p.stdout, p.stderr
     except subprocess.TimeoutExpired as e:
@@ -346,8 +365,15 @@ def run_job(job, r, scratch):
     if "max_runs" in job:
         r = min(r, job["max_runs"])
     for k in range(r):
-        runs.append(run_once(job, os.path.join(scratch, "j%d" % job["id"], "r%d" % k),
-                             job.get("gomaxprocs") or GOMAXPROCS[k % len(GOMAXPROCS)]))
+        gmp = job.get("gomaxprocs") or GOMAXPROCS[k % len(GOMAXPROCS)]
+        x = run_once(job, os.path.join(scratch, "j%d" % job["id"], "r%d" % k), gmp)
+        if x["rc"] == -9 and not job.get("may_hang"):
+            # a tool that never hangs ran out of time: on the shared sandbox that is load, not the tool;
+            # the run is repeated once with six times the budget before a timeout is believed
+            slow = dict(job, timeout=6 * job.get("timeout", TIMEOUT))
+            x = run_once(slow, os.path.join(scratch, "j%d" % job["id"], "r%d" % k), gmp)
+            x["retried_after_timeout"] = True
+        runs.append(x)
     return runs
 
 
